@@ -2,7 +2,7 @@
 """Behaviour-preserving whole-package rewrites of /repo/src (scratch copy, removed afterwards); every check must stay silent.
 
 usage: tools/metamorph.py [transform ...] [--props=C01,C02] [-v]
-Transforms: unparse, rename, assert2if, augassign, flipif, swapeq, noop, tobytes
+Transforms: see TR at the bottom of the transformer classes (unparse, rename, assert2if, augassign, flipif, swapeq, noop, tobytes, returntmp, chaincmp, inor, ifexp2stmt, while2break, fstr2concat, demorgan, kwbyteorder, sliceexplicit, range2cmp, pow2shift, divmod2ops, listcomp2loop)
 """
 import ast, os, shutil, subprocess, sys, tempfile, symtable, builtins
 
@@ -178,7 +178,160 @@ class While2Break(ast.NodeTransformer):
         return ast.copy_location(ast.While(test=ast.Constant(value=True), body=[brk] + node.body, orelse=[]), node)
 
 
-TR = {"unparse": None, "returntmp": ReturnTmp, "chaincmp": ChainCmp, "inor": InOr, "ifexp2stmt": IfExp2Stmt, "while2break": While2Break, "rename": Rename, "assert2if": Assert2If, "augassign": AugAssign, "flipif": FlipIf, "swapeq": SwapEq, "noop": Noop, "tobytes": ToBytes}
+class FStr2Concat(ast.NodeTransformer):
+    """f"a{x}b" -> "a" + str(x) + "b" (no conversions / format specs)."""
+
+    def visit_JoinedStr(self, node):
+        if not all(isinstance(v, ast.Constant) or (isinstance(v, ast.FormattedValue) and v.conversion == -1 and v.format_spec is None) for v in node.values):
+            return node
+        parts = []
+        for v in node.values:
+            if isinstance(v, ast.Constant):
+                parts.append(ast.Constant(value=v.value))
+            else:
+                parts.append(ast.Call(func=ast.Name(id="str", ctx=ast.Load()), args=[v.value], keywords=[]))
+        if not parts:
+            return ast.copy_location(ast.Constant(value=""), node)
+        if not any(isinstance(q, ast.Constant) for q in parts):
+            parts.insert(0, ast.Constant(value=""))
+        e = parts[0]
+        for q in parts[1:]:
+            e = ast.BinOp(left=e, op=ast.Add(), right=q)
+        return ast.copy_location(e, node)
+
+
+class DeMorgan(ast.NodeTransformer):
+    """not (a and b) -> (not a) or (not b); not (a or b) -> (not a) and (not b)   [under `not` the value is a bool]."""
+
+    def visit_UnaryOp(self, node):
+        self.generic_visit(node)
+        if isinstance(node.op, ast.Not) and isinstance(node.operand, ast.BoolOp):
+            op = ast.Or() if isinstance(node.operand.op, ast.And) else ast.And()
+            return ast.copy_location(ast.BoolOp(op=op, values=[ast.UnaryOp(op=ast.Not(), operand=v) for v in node.operand.values]), node)
+        return node
+
+
+class KwByteorder(ast.NodeTransformer):
+    """int.from_bytes(x, "big") -> int.from_bytes(x, byteorder="big"); x.to_bytes(n, "big") -> x.to_bytes(n, byteorder="big")."""
+
+    def visit_Call(self, node):
+        self.generic_visit(node)
+        f = node.func
+        if isinstance(f, ast.Attribute) and not node.keywords:
+            if f.attr == "from_bytes" and len(node.args) == 2:
+                return ast.copy_location(ast.Call(func=f, args=node.args[:1], keywords=[ast.keyword(arg="byteorder", value=node.args[1])]), node)
+            if f.attr == "to_bytes" and len(node.args) == 2 and not (isinstance(f.value, ast.Name) and f.value.id == "int"):
+                return ast.copy_location(ast.Call(func=f, args=node.args[:1], keywords=[ast.keyword(arg="byteorder", value=node.args[1])]), node)
+        return node
+
+
+class SliceExplicit(ast.NodeTransformer):
+    """x[:n] -> x[0:n] for a constant or name n (lower bound made explicit)."""
+
+    def visit_Subscript(self, node):
+        self.generic_visit(node)
+        sl = node.slice
+        if isinstance(sl, ast.Slice) and sl.lower is None and sl.step is None and sl.upper is not None and not (
+                isinstance(sl.upper, ast.UnaryOp) or (isinstance(sl.upper, ast.Constant) and isinstance(sl.upper.value, int) and sl.upper.value < 0)):
+            node.slice = ast.Slice(lower=ast.Constant(value=0), upper=sl.upper, step=None)
+        return node
+
+
+class Range2Cmp(ast.NodeTransformer):
+    """x in range(a, b) -> a <= x < b for a plain name x (integers)."""
+
+    def visit_Compare(self, node):
+        self.generic_visit(node)
+        if len(node.ops) == 1 and isinstance(node.ops[0], (ast.In, ast.NotIn)) and isinstance(node.left, ast.Name):
+            c = node.comparators[0]
+            if isinstance(c, ast.Call) and isinstance(c.func, ast.Name) and c.func.id == "range" and len(c.args) in (1, 2) and not c.keywords:
+                lo = ast.Constant(value=0) if len(c.args) == 1 else c.args[0]
+                hi = c.args[-1]
+                e = ast.Compare(left=lo, ops=[ast.LtE(), ast.Lt()], comparators=[node.left, hi])
+                if isinstance(node.ops[0], ast.NotIn):
+                    e = ast.UnaryOp(op=ast.Not(), operand=e)
+                return ast.copy_location(e, node)
+        return node
+
+
+class Pow2Shift(ast.NodeTransformer):
+    """2 ** n -> 1 << n for a non-negative integer constant n."""
+
+    def visit_BinOp(self, node):
+        self.generic_visit(node)
+        if isinstance(node.op, ast.Pow) and isinstance(node.left, ast.Constant) and node.left.value == 2 and isinstance(node.right, ast.Constant) \
+                and isinstance(node.right.value, int) and node.right.value >= 0:
+            return ast.copy_location(ast.BinOp(left=ast.Constant(value=1), op=ast.LShift(), right=node.right), node)
+        return node
+
+
+class Divmod2Ops(ast.NodeTransformer):
+    """q, r = divmod(a, b) -> q = a // b; r = a % b for plain names/constants a, b that are not q (integers)."""
+
+    def visit_Assign(self, node):
+        t = node.targets[0] if len(node.targets) == 1 else None
+        v = node.value
+        if isinstance(t, ast.Tuple) and len(t.elts) == 2 and all(isinstance(e, ast.Name) for e in t.elts) and isinstance(v, ast.Call) and isinstance(v.func, ast.Name) \
+                and v.func.id == "divmod" and len(v.args) == 2 and all(isinstance(a, (ast.Name, ast.Constant)) for a in v.args):
+            q, r = t.elts
+            a, b = v.args
+            names = {x.id for x in (a, b) if isinstance(x, ast.Name)}
+            if q.id in names or r.id in names:
+                # a is overwritten by q: compute the remainder first
+                if r.id in names:
+                    return node
+                return [ast.copy_location(ast.Assign(targets=[ast.Name(id=r.id, ctx=ast.Store())], value=ast.BinOp(left=a, op=ast.Mod(), right=b)), node),
+                        ast.copy_location(ast.Assign(targets=[ast.Name(id=q.id, ctx=ast.Store())], value=ast.BinOp(left=a, op=ast.FloorDiv(), right=b)), node)]
+            return [ast.copy_location(ast.Assign(targets=[ast.Name(id=q.id, ctx=ast.Store())], value=ast.BinOp(left=a, op=ast.FloorDiv(), right=b)), node),
+                    ast.copy_location(ast.Assign(targets=[ast.Name(id=r.id, ctx=ast.Store())], value=ast.BinOp(left=a, op=ast.Mod(), right=b)), node)]
+        return node
+
+
+class ListComp2Loop(ast.NodeTransformer):
+    """v = [e for x in xs]  ->  v = []; for x in xs: v.append(e)   (one generator, no conditions, the loop variables are
+    used nowhere else in the function, v does not occur in e or xs)."""
+
+    def visit_FunctionDef(self, node):
+        counts = {}
+        for n in ast.walk(node):
+            if isinstance(n, ast.Name):
+                counts[n.id] = counts.get(n.id, 0) + 1
+            if isinstance(n, ast.arg):
+                counts[n.arg] = counts.get(n.arg, 0) + 10
+
+        def block(stmts):
+            out = []
+            for st in stmts:
+                for f in ("body", "orelse", "finalbody"):
+                    v = getattr(st, f, None)
+                    if isinstance(v, list) and v and isinstance(v[0], ast.stmt):
+                        setattr(st, f, block(v))
+                if isinstance(st, ast.Try):
+                    for h in st.handlers:
+                        h.body = block(h.body)
+                if isinstance(st, ast.Assign) and len(st.targets) == 1 and isinstance(st.targets[0], ast.Name) and isinstance(st.value, ast.ListComp) \
+                        and len(st.value.generators) == 1 and not st.value.generators[0].ifs and not st.value.generators[0].is_async:
+                    g = st.value.generators[0]
+                    tv = [n.id for n in ast.walk(g.target) if isinstance(n, ast.Name)]
+                    inside = {}
+                    for n in ast.walk(st.value):
+                        if isinstance(n, ast.Name):
+                            inside[n.id] = inside.get(n.id, 0) + 1
+                    v = st.targets[0].id
+                    nested = any(isinstance(n, (ast.ListComp, ast.GeneratorExp, ast.Lambda, ast.DictComp, ast.SetComp)) for n in ast.walk(st.value) if n is not st.value)
+                    if all(counts.get(x, 0) == inside.get(x, 0) for x in tv) and v not in inside and not nested and not isinstance(node, ast.Lambda):
+                        out.append(ast.copy_location(ast.Assign(targets=[ast.Name(id=v, ctx=ast.Store())], value=ast.List(elts=[], ctx=ast.Load())), st))
+                        app = ast.Expr(value=ast.Call(func=ast.Attribute(value=ast.Name(id=v, ctx=ast.Load()), attr="append", ctx=ast.Load()), args=[st.value.elt], keywords=[]))
+                        out.append(ast.copy_location(ast.For(target=g.target, iter=g.iter, body=[app], orelse=[]), st))
+                        continue
+                out.append(st)
+            return out
+        node.body = block(node.body)
+        return node
+
+
+TR = {"unparse": None, "fstr2concat": FStr2Concat, "demorgan": DeMorgan, "kwbyteorder": KwByteorder, "sliceexplicit": SliceExplicit, "range2cmp": Range2Cmp,
+      "pow2shift": Pow2Shift, "divmod2ops": Divmod2Ops, "listcomp2loop": ListComp2Loop, "returntmp": ReturnTmp, "chaincmp": ChainCmp, "inor": InOr, "ifexp2stmt": IfExp2Stmt, "while2break": While2Break, "rename": Rename, "assert2if": Assert2If, "augassign": AugAssign, "flipif": FlipIf, "swapeq": SwapEq, "noop": Noop, "tobytes": ToBytes}
 
 
 def transform(root, name):
@@ -213,6 +366,14 @@ def main():
             shutil.copytree("/repo/src", os.path.join(tmp, "src"), ignore=shutil.ignore_patterns("__pycache__"))
             shutil.copytree("/repo/conf", os.path.join(tmp, "conf"))
             n = transform(tmp, name)
+            if "--pytest" in sys.argv:  # sanity of the transform itself: the pinned suite must give the baseline result on the rewritten package
+                shutil.copytree("/repo/tests", os.path.join(tmp, "tests"))
+                for f in ("pyproject.toml", "setup.py", "setup.cfg", "pytest.ini", "tox.ini", "conftest.py"):
+                    if os.path.exists(os.path.join("/repo", f)):
+                        shutil.copy(os.path.join("/repo", f), tmp)
+                pr = subprocess.run("PYTHONPATH=%s/src /venv/bin/python -m pytest -q -p no:cacheprovider --timeout=900 --continue-on-collection-errors 2>&1 | tail -1" % tmp,
+                                    shell=True, cwd=tmp, capture_output=True, text=True)
+                print("%-10s pytest on the rewritten package: %s" % (name, pr.stdout.strip()[-80:]))
             res = []
             procs = [(p, subprocess.Popen([os.path.join(VERIF, "check"), p, "--repo", tmp, "--no-evidence"], cwd=VERIF, stdout=subprocess.PIPE, stderr=subprocess.STDOUT, text=True)) for p in props]
             for p, pr in procs:
